@@ -130,6 +130,80 @@ type wireCase struct {
 	Splits []int `json:"splits,omitempty"`
 }
 
+// pipeCase: requests and frames the server rejects at receive time (unknown
+// type, undecodable body) are written in one go; the replies are produced by
+// different server goroutines at the same time. The reply stream must still be
+// a sequence of whole, correctly laid out frames, one per request.
+type pipeCase struct {
+	Kinds []string `json:"kinds"` // getattr | statfs | unknown | short
+}
+
+func runPipeCase(c pipeCase) *fail {
+	mock := mockfs.New(true)
+	s := peers.Start(p9.NewServer(mock))
+	defer s.Close(10 * time.Second)
+	if _, err := s.Version(1<<20, "9P2000.L.Google.7"); err != nil {
+		return failf("harness-version", "HARNESS-ERROR %v", err)
+	}
+	if r, err := s.Call(withTag(tAttach(1, nofid, ""), 1)); err != nil || r.Type == refcodec.Rlerror {
+		return failf("harness-attach", "HARNESS-ERROR %v %v", r, err)
+	}
+	s.S2C.YieldOnWrite(true)
+	var stream []byte
+	want := map[uint16]uint8{}
+	for i, k := range c.Kinds {
+		tag := uint16(100 + i)
+		switch k {
+		case "getattr":
+			stream = append(stream, refcodec.Encode(withTag(tGetattr(1), tag))...)
+			want[tag] = refcodec.Rgetattr
+		case "statfs":
+			stream = append(stream, refcodec.Encode(withTag(tStatfs(1), tag))...)
+			want[tag] = refcodec.Rstatfs
+		case "unknown":
+			stream = append(stream, refcodec.Frame(99, tag, []byte{1, 2, 3, 4, 5})...)
+			want[tag] = refcodec.Rlerror
+		default: // a Tgetattr whose body is too short
+			stream = append(stream, refcodec.Frame(refcodec.Tgetattr, tag, []byte{1, 0, 0})...)
+			want[tag] = refcodec.Rlerror
+		}
+	}
+	// (an undecodable body is answered without its tag - NOTAG - so those replies are only counted)
+	shorts := 0
+	for i, k := range c.Kinds {
+		if k == "short" {
+			shorts++
+			delete(want, uint16(100+i))
+		}
+	}
+	s.Send(stream)
+	got := map[uint16]int{}
+	notag := 0
+	for len(got) < len(want) || notag < shorts {
+		raw, err := s.Recv(20 * time.Second)
+		if err != nil {
+			return failf("no-reply:pipelined", "%d of %d replies arrived (%v); kinds %v", len(got), len(want), err, c.Kinds)
+		}
+		rep, derr := refcodec.DecodeStrict(raw)
+		if derr != nil {
+			return failf("wire:reply-stream-not-whole-frames", "the reply stream contains %x, which the reference codec rejects (%v): replies produced at the same time were not written as whole frames; kinds %v", raw[:min(len(raw), 48)], derr, c.Kinds)
+		}
+		if rep.Tag == refcodec.NOTAG && rep.Type == refcodec.Rlerror && notag < shorts {
+			notag++
+			continue
+		}
+		wt, ok := want[rep.Tag]
+		if !ok || (rep.Type != wt && rep.Type != refcodec.Rlerror) {
+			return failf("wire:reply-stream-not-whole-frames", "unexpected reply %s (kinds %v)", rep, c.Kinds)
+		}
+		got[rep.Tag]++
+		if got[rep.Tag] > 1 {
+			return failf("wire:reply-stream-not-whole-frames", "two replies with tag %d (kinds %v)", rep.Tag, c.Kinds)
+		}
+	}
+	return nil
+}
+
 type wireStats struct {
 	classes []string
 }
@@ -503,6 +577,23 @@ func TestC01(t *testing.T) {
 		}
 		h.Case(evid.Hash64(frame, u32b(sp...)), len(c.Splits) > 0, cls)
 		return f
+	})
+	// replies produced at the same time, incl. the error replies to frames rejected at receive time
+	rapidCases(h, "pipelined", env.PerShard(env.Pick(1600, 60000)), func(rt *rapid.T) pipeCase {
+		var c pipeCase
+		for i := rapid.IntRange(2, 12).Draw(rt, "n"); i > 0; i-- {
+			c.Kinds = append(c.Kinds, rapid.SampledFrom([]string{"getattr", "getattr", "statfs", "unknown", "unknown", "short"}).Draw(rt, "kind"))
+		}
+		return c
+	}, func(c pipeCase) *fail {
+		rej := 0
+		for _, k := range c.Kinds {
+			if k == "unknown" || k == "short" {
+				rej++
+			}
+		}
+		h.Case(evid.HashJSON(c), rej > 0 && rej < len(c.Kinds), "pipelined")
+		return runPipeCase(c)
 	})
 	// (1)+(2) at the connection: real client, tap, real server, recording backend
 	rapidCases(h, "client-server", env.PerShard(env.Pick(24000, 400000)), genCallCase, func(c callCase) *fail {
